@@ -104,6 +104,8 @@ def run_engine(pkg, tags, harnesses, tier, seed, known_open, extra, outdir):
            "-seed", str(seed), "-tier", tier, "-known", ",".join(known_open)]
     if tags:
         cmd += ["-tags", tags]
+    if "-timeout" not in extra:
+        cmd += ["-timeout", "180000"]  # per-query soft limit; registered runs stay far below it (worst observed: 16 s)
     if "-maxviol" not in extra:
         cmd += ["-maxviol", "2"]  # one reproducible counterexample decides; keeps runs on broken trees short
     cmd += extra
